@@ -57,8 +57,15 @@ void h_aead_crypt(void)
 {
     /* one constant entry position per run (-DVERIF_PARTIAL=p; the groups cover
      * p = 0..rate-1), every len below the bound */
+#if defined(VERIF_LEN)
+    one_case((unsigned char)VERIF_PARTIAL, (size_t)VERIF_LEN);   /* constant length too */
+#else
     size_t len = nondet_size();
     __CPROVER_assume(len < VERIF_LEN_BOUND);
+#if defined(VERIF_LEN_LO)
+    __CPROVER_assume(len >= VERIF_LEN_LO);
+#endif
     one_case((unsigned char)VERIF_PARTIAL, len);
+#endif
     VERIF_REACH_POINT("h_aead_crypt end");
 }
